@@ -7,7 +7,8 @@ import os
 import vlib
 
 TOGGLES = ["FixRcvErrRelease"]
-FAULTS = ["finish", "fail", "abrupt", "half", "garbage", "junk", "oversized"]
+FAULTS = ["finish", "fail", "abrupt", "reset", "half", "garbage", "junk", "oversized"]
+TRANSPORTS = ["tcp", "tls"]
 MOMENTS = ["idle", "midsend", "repeat"]
 MONITOR_CFG = ("SPECIFICATION Spec\nCONSTANTS\n  TraceFile = \"@TRACE@\"\n"
                "POSTCONDITION Consumed\nCHECK_DEADLOCK FALSE\n")
@@ -31,10 +32,11 @@ def run(tier, scratch, drv, only_cases=None):
         reps = 1 if tier == "quick" else 4
         cases = []
         for rep in range(reps):
-            for f in FAULTS:
-                for m in MOMENTS:
-                    cases.append({"n": len(cases) + 1, "cfg": {"transport": "tcp", "fault": f, "moment": m,
-                                                               "seed": vlib.seed() * 10 + rep}})
+            for tr in TRANSPORTS:
+                for f in FAULTS:
+                    for m in MOMENTS:
+                        cases.append({"n": len(cases) + 1, "cfg": {"transport": tr, "fault": f, "moment": m,
+                                                                   "seed": vlib.seed() * 10 + rep}})
     else:
         cases = only_cases
         res["model"] = {}
@@ -44,7 +46,7 @@ def run(tier, scratch, drv, only_cases=None):
             f.write(json.dumps(c) + "\n")
     trace = cp.replace("cases", "trace")
     rp = cp.replace("cases", "res")
-    _, wall = vlib.run_driver(drv, ["cli", "-cases", cp, "-trace", trace, "-results", rp, "-workers", "21"])
+    _, wall = vlib.run_driver(drv, ["cli", "-cases", cp, "-trace", trace, "-results", rp, "-workers", "24"])
     with open(rp) as f:
         summary = json.load(f)
     if summary["notes"] > len(cases) // 3:
